@@ -88,8 +88,10 @@ def events_of(path):
             ev.append(("M?", addr, clk))
         elif name == "wait_no_mreq":
             addr, clk = a[1], a[2]
-            if isinstance(clk, T) and clk.is_const():
-                ev.extend([("I", addr)] * clk.val)
+            # an internal cycle is ONE T-state with the address on the bus: the ULA looks at every single one, so a
+            # k-T wait issued as one bus call (delayed once) is not k internal cycles
+            if isinstance(clk, T) and clk.is_const() and clk.val == 1:
+                ev.append(("I", addr))
             else:
                 ev.append(("I?", addr, clk))
         elif name == "wait_internal":
